@@ -46,11 +46,11 @@ class Membership:
     proved = True
 
     def bound(self, tier):
-        n = 40 if tier == "quick" else 600
+        n = 80 if tier == "quick" else 600
         return f"{n} seeded random trees (<=14 entries over 10 names x 6 directories, file/dir/dangling links) x 0-3 patterns from a pool of {len(PATTERNS)}; every path spelled absolute, relative-with-dotdot and through links"
 
     def inputs(self, tier, seed):
-        n = 40 if tier == "quick" else 600
+        n = 80 if tier == "quick" else 600
         for i in range(n):
             yield {"seed": seed * 7919 + i}
 
@@ -99,6 +99,12 @@ class Membership:
         if rng.random() < 0.35:
             # order-sensitive lists: a broad pattern followed by a re-inclusion (gitignore: last match wins)
             pats = rng.choice([["*.h", "!b.h"], ["*.c", "!a.c", "*.F90"], ["inc/*", "!inc/b.h"], ["sub/*", "!sub/a.c", "d.cpp"]])
+            for rel in ("b.h", "a.c", "inc/b.h", "sub/a.c", "d.cpp"):      # the re-included files exist
+                p = os.path.join(cb, rel)
+                os.makedirs(os.path.dirname(p), exist_ok=True)
+                if not os.path.lexists(p):
+                    with open(p, "w") as fh:
+                        fh.write("int r;\n")
         return cb, pats
 
     def check(self, inp):
